@@ -15,22 +15,53 @@ Transcribed from the code as it is after the fixes F04 and C04-fix:
 
 together with the dispatch rules of Go 1.23 `io.Copy`, `bufio.Reader.WriteTo`, `net.TCPConn.WriteTo/ReadFrom`
 that decide which relay loop actually runs. Timing is not modelled: an event is "this side made
-bytes readable / finished sending", and after every event the pump runs until it blocks in `Read`
-again (a quiescent point).
+bytes readable / finished sending / broke", and after every event the pump runs until it blocks in
+`Read` again (a quiescent point).
+
+A copy goroutine ends for one of three reasons (`EndReason`): its `Read` returns `io.EOF`, its `Read`
+fails (ECONNRESET after the peer's abortive close, a deadline), or its `Write` fails (the destination
+is gone: EPIPE / ECONNRESET, a deadline). `copySync` does the same thing in all three cases: it logs,
+calls `closeWrite(dst)` and signals `donec`. When both have ended the handler returns `errClose`
+and both connections are closed with a plain `Close()`; no socket option (SO_LINGER, deadlines) is
+set on either connection inside the tunnel branch (regenerated fact `tunnelSockopts = []`), so that
+final close is graceful: the kernel still delivers what was written before it (`receive`).
 -/
 namespace Martian.Tunnel
 open Martian
 
 /-- What the source side of a pump does between two quiescent points. -/
 inductive Ev where
-  | data (bs : Bytes)   -- bytes become readable
+  | data (bs : Bytes)   -- bytes become readable (and the destination takes them)
   | eof                 -- the side finished sending (CloseWrite or Close): `Read` returns `io.EOF`
+  | rerr                -- `Read` fails: the side closed abortively (RST → ECONNRESET)
+  | deadline            -- `Read` fails with a timeout: the deadline that handleLoop armed on the client
+                        -- connection before this exchange (`conn.SetDeadline(now + p.timeout)`) has passed;
+                        -- nothing in the tunnel branch re-arms or clears it
+  | dataW (bs : Bytes) (n : Nat)
+                        -- bytes become readable but the destination is gone (it closed, or reset the
+                        -- connection): the writes accept only the first `n` bytes, then `Write` fails
   deriving Repr, DecidableEq
 
-/-- What a pump does to its destination, in order. -/
+/-- Why a copy goroutine's `io.Copy` returned. -/
+inductive EndReason where
+  | eof        -- `Read` returned io.EOF (io.Copy returns nil)
+  | readErr    -- `Read` returned another error
+  | writeErr   -- `Write` returned an error (or a short write)
+  deriving Repr, DecidableEq
+
+/-- How a connection is closed: `graceful` = plain `Close()` (FIN after everything written; the
+kernel keeps delivering), `abortive` = `Close()` after `SetLinger(0)` (RST; whatever has not yet
+reached the peer is discarded). -/
+inductive CloseKind where
+  | graceful
+  | abortive
+  deriving Repr, DecidableEq
+
+/-- What the proxy does to one of its two connections, in order. -/
 inductive Act where
   | write (bs : Bytes)
   | closeWrite
+  | close (k : CloseKind)
   deriving Repr, DecidableEq
 
 /-- The facts about a `net.Conn` value that `io.Copy` and `bufio` look at. -/
@@ -76,21 +107,48 @@ decreasing_by
   | nil => simp at *
   | cons b t => simp [List.length_drop]; omega
 
-/-- One copy goroutine. `held`: bytes it has (found buffered or read) but not yet written. -/
+/-- One copy goroutine. `held`: bytes it has (found buffered or read) but not yet written;
+`ended`: why its `io.Copy` returned, if it has. -/
 structure Pump where
   held : Bytes
-  finished : Bool
+  ended : Option EndReason
   deriving Repr, DecidableEq
+
+/-- `io.Copy` has returned, `closeWrite(dst)` was called and `donec` signalled. -/
+def Pump.finished (p : Pump) : Bool := p.ended.isSome
+
+/-- A pump that has not started: `held` is what its reader already has buffered. -/
+def Pump.fresh (held : Bytes) : Pump := ⟨held, none⟩
 
 /-- Before its first blocking `Read`: `bufio.Reader.WriteTo` writes out `buf[r:w]` (`writeBuf`). -/
 def Pump.start (p : Pump) : Pump × List Act :=
   if p.held.isEmpty then (p, []) else ({ p with held := [] }, [.write p.held])
 
-/-- React to one event and run to the next quiescent point. After `io.Copy` has returned
-(EOF) the goroutine calls `closeWrite(dst)` and signals `donec`. -/
-def Pump.step (l : Loop) (p : Pump) : Ev → Pump × List Act
-  | .data bs => if p.finished then (p, []) else (p, (chunks (l.pred bs.length) bs).map .write)
-  | .eof => if p.finished then (p, []) else ({ p with finished := true }, [.closeWrite])
+/-- Does the event end `io.Copy`, and why. -/
+def Ev.ending : Ev → Option EndReason
+  | .data _ => none
+  | .eof => some .eof
+  | .rerr => some .readErr
+  | .deadline => some .readErr
+  | .dataW _ _ => some .writeErr
+
+/-- The bytes of the event that the destination accepted. -/
+def Ev.accepted : Ev → Bytes
+  | .data bs => bs
+  | .eof => []
+  | .rerr => []
+  | .deadline => []
+  | .dataW bs n => bs.take n
+
+/-- React to one event and run to the next quiescent point. After `io.Copy` has returned — with
+`nil` (EOF), a read error or a write error, `copySync` makes no difference — the goroutine calls
+`closeWrite(dst)` and signals `donec`. -/
+def Pump.step (l : Loop) (p : Pump) (e : Ev) : Pump × List Act :=
+  if p.finished then (p, []) else
+  let ws := (chunks (l.pred e.accepted.length) e.accepted).map Act.write
+  match e.ending with
+  | none => (p, ws)
+  | some r => ({ p with ended := some r }, ws ++ [.closeWrite])
 
 def Pump.runFrom (l : Loop) : Pump → List Ev → Pump × List Act
   | p, [] => (p, [])
@@ -110,20 +168,59 @@ def bytesOf : List Act → Bytes
   | [] => []
   | .write bs :: as => bs ++ bytesOf as
   | .closeWrite :: as => bytesOf as
+  | .close _ :: as => bytesOf as
 
 /-- Has the destination been told that no more bytes follow? -/
 def eofSeen (as : List Act) : Bool := as.contains .closeWrite
 
-/-- The bytes a side sends before it finishes sending. -/
+/-- Why (and whether) the pump fed with these events has ended: the first ending event. -/
+def endOf : List Ev → Option EndReason
+  | [] => none
+  | e :: es => match e.ending with
+    | none => endOf es
+    | some r => some r
+
+/-- The bytes of a direction that the destination's connection accepted before the pump ended:
+everything the side sent before it finished or broke, cut where the destination stopped taking bytes. -/
 def sentBy : List Ev → Bytes
   | [] => []
-  | .data bs :: es => bs ++ sentBy es
-  | .eof :: _ => []
+  | e :: es => match e.ending with
+    | none => e.accepted ++ sentBy es
+    | some _ => e.accepted
 
-def closes : List Ev → Bool
-  | [] => false
-  | .data _ :: es => closes es
-  | .eof :: _ => true
+def closes (evs : List Ev) : Bool := (endOf evs).isSome
+
+/-- The final close performed on a connection, if any. -/
+def finalClose : List Act → Option CloseKind
+  | [] => none
+  | .close k :: _ => some k
+  | _ :: as => finalClose as
+
+/-- How a stream ends for the application reading it. -/
+inductive Ending where
+  | stillOpen
+  | eof
+  | reset
+  deriving Repr, DecidableEq
+
+structure Rx where
+  bytes : Bytes
+  ending : Ending
+  deriving Repr, DecidableEq
+
+/-- The TCP contract the tunnel relies on (trusted; exercised by the harness with slow readers and
+multi-MiB uploads): what the peer's application eventually reads from a connection on which the
+proxy performed `acts`, when `lost` of the written bytes had not yet reached the peer at the moment
+of the final close (a slow reader, a full window). Written bytes arrive in order; `CloseWrite` and a
+graceful `Close` put end-of-stream behind them; an abortive close discards the `lost` bytes and
+shows a reset instead — unless nothing was outstanding and end-of-stream had already been sent. -/
+def receive (lost : Nat) (acts : List Act) : Rx :=
+  let all := bytesOf acts
+  match finalClose acts with
+  | none => ⟨all, if eofSeen acts then .eof else .stillOpen⟩
+  | some .graceful => ⟨all, .eof⟩
+  | some .abortive =>
+    if lost = 0 ∧ eofSeen acts = true then ⟨all, .eof⟩ else ⟨all.take (all.length - lost), .reset⟩
 
 structure Cfg where
   client : ConnKind    -- the accepted connection `conn` (brw reads from and writes to it)
@@ -145,28 +242,45 @@ structure Out where
   released : Bool        -- the handler returned errClose: deferred cconn.Close(), handleLoop's conn.Close()
   deriving Repr, DecidableEq
 
+/-- `io.Copy(brw, res.Body)` inside `res.Write`: one write of the body if there is one. -/
+def optWrite : Bytes → List Act
+  | [] => []
+  | b :: bs => [.write (b :: bs)]
+
+/-- The handler's return: `defer cconn.Close()` here, `defer conn.Close()` in handleLoop. Neither
+connection has had SO_LINGER touched, so both closes are graceful. -/
+def releaseActs (released : Bool) (k : CloseKind) : List Act := if released then [.close k] else []
+
 /-- The pump client → target: `go copySync(cconn, brw, cconn, donec)`; `early` is what `brw.Reader`
 already holds behind the CONNECT head. -/
 def upPump (cfg : Cfg) (early : Bytes) (up : List Ev) : Pump × List Act :=
-  Pump.run (readerWriteToLoop cfg.target cfg.client) ⟨early, false⟩ up
+  Pump.run (readerWriteToLoop cfg.target cfg.client) (.fresh early) up
 
 /-- The pump target → client: `go copySync(conn, cconn, conn, donec)`. -/
 def downPump (cfg : Cfg) (down : List Ev) : Pump × List Act :=
-  Pump.run (ioCopyLoop cfg.client cfg.target) ⟨[], false⟩ down
+  Pump.run (ioCopyLoop cfg.client cfg.target) (.fresh []) down
 
-def handleConnect (cfg : Cfg) (c : Connect) (early : Bytes) (up down : List Ev) : Out :=
+/-- `linger`: how the outbound connection is closed at the end (`graceful` is the code as it is). -/
+def handleConnectWith (linger : CloseKind) (cfg : Cfg) (c : Connect) (early : Bytes) (up down : List Ev) : Out :=
   match c with
   | .refused =>
     -- res = 502; proxyutil.Warning(res.Header, cerr); resmod; res.Write(brw); brw.Flush(); return err
     { status := 502, warning := true, toClient := [], toTarget := [], released := false }
   | .ok ahead =>
     -- res.Write(brw) writes the head and then res.Body (= ahead); brw.Flush()
-    let pre := if ahead.isEmpty then [] else [Act.write ahead]
+    let pre := optWrite ahead
     let u := upPump cfg early up
     let d := downPump cfg down
-    -- <-donec; <-donec; return errClose
-    { status := 200, warning := false, toClient := pre ++ d.2, toTarget := u.2,
-      released := u.1.finished && d.1.finished }
+    -- <-donec; <-donec; return errClose  (then the deferred Close of both connections)
+    let rel := u.1.finished && d.1.finished
+    { status := 200, warning := false,
+      toClient := pre ++ d.2 ++ releaseActs rel .graceful,
+      toTarget := u.2 ++ releaseActs rel linger,
+      released := rel }
+
+/-- The blind branch of `handleConnectRequest` as it is. -/
+def handleConnect (cfg : Cfg) (c : Connect) (early : Bytes) (up down : List Ev) : Out :=
+  handleConnectWith .graceful cfg c early up down
 
 /-! ### The previous forms of the client-bound pump (kept to state what was wrong with them) -/
 namespace Legacy
@@ -174,15 +288,15 @@ namespace Legacy
 /-- Net effect of `io.Copy(brw, cconn)` = `bufio.Writer.ReadFrom` on its buffered path (the client
 connection is not an `io.ReaderFrom`, e.g. `*tls.Conn`): bytes accumulate in the 4096-byte buffer,
 which is written out only each time it is full; the pump's final `brw.Flush()` empties it. -/
-def bufferedStep (cap : Nat) (p : Pump) : Ev → Pump × List Act
-  | .data bs =>
-    if p.finished then (p, []) else
-    let all := p.held ++ bs
+def bufferedStep (cap : Nat) (p : Pump) (e : Ev) : Pump × List Act :=
+  if p.finished then (p, []) else
+  match e.ending with
+  | none =>
+    let all := p.held ++ e.accepted
     let full := all.length / cap * cap
     ({ p with held := all.drop full }, if full = 0 then [] else [.write (all.take full)])
-  | .eof =>
-    if p.finished then (p, []) else
-    ({ held := [], finished := true }, (if p.held.isEmpty then [] else [.write p.held]) ++ [.closeWrite])
+  | some r =>
+    ({ held := [], ended := some r }, (if p.held.isEmpty then [] else [.write p.held]) ++ [.closeWrite])
 
 def bufferedRun (cap : Nat) : Pump → List Ev → Pump × List Act
   | p, [] => (p, [])
